@@ -805,3 +805,35 @@ func allChanChoices(ch ssa.Value, p func(ssa.Value) bool) bool {
 	}
 	return len(cs) > 0
 }
+
+// vstore: one way a store can receive its value. A store of a phi (`new := old; if c { new = x };
+// rec.f = new`) is expanded into one virtual store per incoming value, located at the end of the
+// block that chose the value; edges that merely carry the field's current value are dropped.
+type vstore struct {
+	St  *ssa.Store
+	Val ssa.Value
+	At  ssa.Instruction
+}
+
+func virtualStores(fn *ssa.Function, field *types.Var) []vstore {
+	var out []vstore
+	for _, st := range core.StoresToField(fn, field) {
+		var expand func(v ssa.Value, at ssa.Instruction, d int)
+		expand = func(v ssa.Value, at ssa.Instruction, d int) {
+			phi, ok := v.(*ssa.Phi)
+			if !ok || d > 3 {
+				if d > 0 && core.IsFieldLoad(field)(v) {
+					return // unchanged value
+				}
+				out = append(out, vstore{st, v, at})
+				return
+			}
+			for i, e := range phi.Edges {
+				pred := phi.Block().Preds[i]
+				expand(e, pred.Instrs[len(pred.Instrs)-1], d+1)
+			}
+		}
+		expand(st.Val, st, 0)
+	}
+	return out
+}
